@@ -292,7 +292,9 @@ fn machine<G: GroupApi>(run: &Run, depth: usize, pair_depth: usize) -> Reached<G
                "depth_completed": out.completed_depth, "ops": labels.len(), "values_used_for_pairings": vals.len()}),
     );
     if max_spread < 2 && out.completed_depth >= 2 {
-        run.machinery_error(format!("{}: no abstract value has more than one concrete representative (vacuous)", name));
+        // not an error: a library that normalises eagerly has exactly one representative per element; the evidence
+        // records it so that a reader can see that the representation dimension was not exercised by histories
+        run.note(&format!("{}_single_representative_per_element", name), json!(true));
     }
     Reached { vals }
 }
